@@ -193,4 +193,51 @@ mod verif_cex_header {
             }
         }
     }
+    // ---- C12 behind a BIG commit: the newest header is damaged right after a commit that freed a long run of pages at the END of
+    // the file (a bulk bucket that was appended last is deleted).  The fallback must show the previous commit COMPLETE: every page
+    // the previous header reaches is as it was (the commit may only have written to pages that were free for it), check() passes
+    #[test]
+    fn cex_fallback_behind_a_bulk_delete() {
+        let dir = std::env::temp_dir();
+        let p = dir.join(format!("jammdb-cex-header-bulk-{}.db", std::process::id()));
+        let _ = std::fs::remove_file(&p);
+        let db = OpenOptions::new().pagesize(PS as u64).open(&p).unwrap();
+        commit_n(&db, 1);
+        const NBIG: u32 = 300;      // the same size every round: the pages one round frees are the pages the next round takes, so the free set holds no long run when the (multi-page) free list is written
+        for round in 0..4u32 {
+            { let tx = db.tx(true).unwrap(); { let b = tx.create_bucket("big").unwrap(); for i in 0..NBIG { b.put(format!("blob{:04}", i), vec![round as u8; 700]).unwrap(); } } tx.commit().unwrap(); }
+            commit_n(&db, 2 + round);
+            let prev = contents(&db);
+            let prev_has_big = true;
+            { let tx = db.tx(true).unwrap(); tx.delete_bucket("big").unwrap(); tx.commit().unwrap(); }
+            let img = std::fs::read(&p).unwrap();
+            let (t0, t1) = (tx_id_of(&img, 0), tx_id_of(&img, 1));
+            let newest = if t0 > t1 { 0usize } else { 1 };
+            let mut d = img.clone();
+            d[newest * PS + 32..newest * PS + 104].iter_mut().for_each(|b| *b = 0);
+            let ip = dir.join(format!("jammdb-cex-header-bulk-img-{}.db", std::process::id()));
+            std::fs::write(&ip, &d).unwrap();
+            let ctx = format!("history (page size 1024): a small bucket, then round {}: bucket `big` with {} values of 700 bytes committed, a small commit, `big` deleted and committed (a long run of pages at the end of the file is freed); the header record of that last commit is zeroed", round, NBIG);
+            let r = std::panic::catch_unwind(|| {
+                let d2 = OpenOptions::new().pagesize(PS as u64).open(&ip).map_err(|e| format!("open fails: {:?}", e))?;
+                let got = contents(&d2);
+                let big = { let tx = d2.tx(false).unwrap(); let n = tx.get_bucket("big").map(|b| b.cursor().count()).unwrap_or(usize::MAX); n };
+                d2.check().map_err(|e| format!("the previous commit is shown ({} entries in `b`) but check() fails: {:?}", got.len(), e))?;
+                Ok::<_, String>((got, big))
+            });
+            let _ = std::fs::remove_file(&ip);
+            match r {
+                Err(_) => { println!("CEX DBInner::open (C12): {}: reopening panics although the other header page is intact", ctx); panic!("c12-bulk"); }
+                Ok(Err(e)) => { println!("CEX DBInner::open (C12): {}: {}", ctx, e); panic!("c12-bulk"); }
+                Ok(Ok((got, big))) => {
+                    if got != prev || (prev_has_big && big != NBIG as usize) {
+                        println!("CEX DBInner::meta (C12): {}: the fallback shows {} entries in `b` (previous commit: {}) and {} entries in `big` (previous commit: {})", ctx, got.len(), prev.len(), big, NBIG);
+                        panic!("c12-bulk");
+                    }
+                }
+            }
+        }
+        drop(db);
+        let _ = std::fs::remove_file(&p);
+    }
 }
